@@ -274,6 +274,12 @@ def judge(case, out, world, peer, record, conn) -> t.Tuple[t.Optional[dict], dic
         if el_kind == "ack" and client_pdu is not None and client_pdu["ptype"] == rpce.REQUEST:
             bad_at = i
             break
+        if el_kind == "ack" and client_pdu is not None and client_pdu["ptype"] == rpce.ALTER_CONTEXT and s[2]["ptype"] == rpce.BIND_ACK:
+            # a bind_ack where an alter_context_resp is due is an unexpected PDU type (the opposite mix-up, an alter_context_resp
+            # answering the bind, is accepted by the unchanged client through its class hierarchy and stays recorded, not judged)
+            probes["bind_ack_answers_alter_context"] = 1
+            bad_at = i
+            break
     if bad_at is not None:
         probes["terminal_" + played[bad_at][0]] = 1
         if out.kind != "raise":
@@ -496,7 +502,7 @@ class C15(common.Check):
                    "an alter_context_resp answering a bind (and vice versa) is recorded, not judged",
                    "context results inside alter_context_resp are recorded, not judged"]
     required_fired = ("terminal_nak", "terminal_fault", "terminal_eof", "terminal_request", "hs_on", "hs_off", "conforming_success",
-                      "real_success", "real_ntlm", "real_negotiate", "real_terminal_nak", "real_terminal_eof")
+                      "real_success", "real_ntlm", "real_negotiate", "real_terminal_nak", "real_terminal_eof", "bind_ack_answers_alter_context")
 
     def exhaustive(self, tier):
         return True
